@@ -1,6 +1,7 @@
 package sam
 
 import (
+	"github.com/virus-evolution/gofasta/pkg/verifhook"
 	"errors"
 	"io"
 	"os"
@@ -203,6 +204,7 @@ func getVariantsSam(cdsregions []variants.Region, intregions []int, cAlignPair c
 		}
 
 		// and we're done
+		verifhook.Jitter("sam.getVariantsSam", AS.Idx)
 		cVariants <- AS
 	}
 }
